@@ -107,7 +107,20 @@ func fieldName(t types.Type, i int) string {
 	if st == nil || i >= st.NumFields() {
 		return tn + ".?"
 	}
-	return tn + "." + st.Field(i).Name()
+	return tn + "." + fieldVarName(st.Field(i))
+}
+
+// fieldAlias: renamed unexported struct fields → their names in the pinned tree (set by the loader).
+var fieldAlias = map[*types.Var]string{}
+
+func fieldVarName(v *types.Var) string {
+	if v == nil {
+		return "?"
+	}
+	if a, ok := fieldAlias[v]; ok {
+		return a
+	}
+	return v.Name()
 }
 
 func fieldObj(t types.Type, i int) *types.Var {
